@@ -1,6 +1,9 @@
 """C18 -- ordered-set containers stay a set and a sequence at once (model-based state machines)."""
 from __future__ import annotations
 
+import os
+import shutil
+
 from itertools import product
 
 from hypothesis import HealthCheck, Phase, seed, settings
@@ -488,12 +491,49 @@ def shards(tier, seed_):
     for c in ('qset', 'linqset', 'predicates'):
         out += [dict(kind='exh', container=c, depth=depth, k=k, n=nsh) for k in range(nsh)]
         out += [dict(kind='sm', container=c, seed=seed_, shard=i, examples=200 if tier == 'quick' else 1500) for i in range(4 if tier == 'quick' else 12)]
+    for c in ('qset', 'linqset', 'predicates'):
+        out.append(dict(kind='atheris', container=c, runs=60000 if tier == 'quick' else 2000000, seed=seed_))
     return out
+
+
+def run_atheris(shard, acc):
+    "Coverage-guided byte-level campaign (vf/fuzz/container_fuzz.py): same operations, same model-based oracle."
+    import json
+    import re
+    import subprocess
+    import sys
+    root = os.path.dirname(os.path.dirname(os.path.dirname(os.path.abspath(__file__))))
+    script = os.path.join(root, 'vf', 'fuzz', 'container_fuzz.py')
+    outdir = os.path.join(os.environ.get('VERIF_OUT', root), 'replays', 'C18', f'fuzz-{shard["container"]}')
+    corpus = os.path.join(outdir, 'corpus')
+    shutil.rmtree(outdir, ignore_errors=True)
+    os.makedirs(corpus, exist_ok=True)
+    env = dict(os.environ, FUZZ_CONTAINER=shard['container'], FUZZ_OUT=outdir)
+    args = [sys.executable, script, f'-runs={shard["runs"]}', f'-seed={shard["seed"] + 1}', '-max_len=96', '-timeout=20',
+            f'-artifact_prefix={outdir}/', corpus]
+    r = subprocess.run(args, capture_output=True, text=True, env=env)
+    tail = (r.stdout + r.stderr)[-2000:]
+    if 'atheris unavailable' in tail:
+        acc.count('atheris-unavailable')
+        return
+    m = re.findall(r'stat::number_of_executed_units:\s*(\d+)', tail) or re.findall(r'#(\d+)\s+DONE', tail) or re.findall(r'Done (\d+) runs', tail)
+    execs = int(m[-1]) if m else 0
+    acc.evaluations += execs
+    acc.classes[f'atheris-{shard["container"]}'] += execs
+    acc.extra['atheris_execs'] = acc.extra.get('atheris_execs', 0) + execs
+    fpath = os.path.join(outdir, 'violation.json')
+    if os.path.exists(fpath):
+        v = json.load(open(fpath))
+        acc.finding(v['fingerprint'], dict(kind=shard['container'], ops=v['ops']), v['detail'])
+    elif r.returncode != 0 and 'Done' not in tail and 'DONE' not in tail:
+        raise RuntimeError('atheris target failed: ' + tail[-600:])
 
 
 def run_shard(shard, acc):
     if shard['kind'] == 'exh':
         run_exhaustive(shard, acc)
+    elif shard['kind'] == 'atheris':
+        run_atheris(shard, acc)
     else:
         run_machine(shard, acc)
 
